@@ -984,6 +984,9 @@ func (f *fsm) established() (fsmState, error) {
 	}
 
 	to, err := established()
+	// wait for the keepAlive manager to exit, it must not outlive this
+	// session and touch the timers of the next one
+	<-kaManagerDoneCh
 	verifPoint("est.teardown", f)
 	f.cleanupConnAndReader()
 	f.holdTimer.Stop()
